@@ -17,3 +17,9 @@ package lang
 
 // Address steps are immutable values (a name or a cty key); their String() is a function of the value.
 //@ pure-method lang.AddressStep.String
+
+// Copy of an address: same steps in a backing array of its own, without spare capacity (an append to the
+// copy can therefore never write into memory shared with a sibling copy) (C09, C17).
+//@ contract (lang.Address).Copy (a) (result)
+//@   ensures [C09,C17] len(result) == len(a) && cap(result) == len(result) && fresh(result)
+//@   ensures [C09,C17] forall(j, 0, len(a), result[j] == a[j])
